@@ -4264,3 +4264,45 @@ def sw2(m, run, rule='SW2.sweep-keeps-weights-and-definition'):
             raise AnalysisError('%s: interpreter met an unsupported construct: %s' % (key, ex))
         run.ob(rule, key, why is None, 'second section = input moved by the vector, same class / degree / knots / weights' if why is None else why,
                'geomdl/sweeping.py:%d in %s' % (fi.node.lineno, fi.key))
+
+
+# ====================================================================================== C14: trims of every importable kind are accepted
+def trm2(m, run, rule='TRM2.every-importable-trim-kind-is-accepted'):
+    """TRM2: abstract.Surface.add_trim (reached through the `trims` setter the importers use) interpreted on an abstract surface with a
+    trim of every kind the JSON / cfg importers can build - spline curve, rational curve, freeform, curve container - each constructed by
+    interpreting the class's own __init__ chain and given the dimension 2: every kind is accepted and appended; the same kinds with
+    dimension 3 are rejected.  (A guard that reads an attribute only some kinds define breaks the import of a file with that kind of trim.)"""
+    fi = m.lookup(('BSpline', 'Surface'), 'add_trim', 'methods')
+    if fi is None:
+        raise AnalysisError('Surface.add_trim not found')
+    kinds = (('BSpline', 'Curve'), ('NURBS', 'Curve'), ('freeform', 'Freeform'), ('multi', 'CurveContainer'))
+    for key_ in kinds:
+        if key_ not in m.classes:
+            raise AnalysisError('trim kind %s.%s not found' % key_)
+        for dim in (2, 3):
+            sk = SK(m, dict(STD_ABSTRACTED))
+            sk.construct = True
+            key = 'abstract.Surface.add_trim :: %s.%s of dimension %d' % (key_[0], key_[1], dim)
+            why = None
+            try:
+                trim = sk.apply(('class', key_), [], {}, None)
+                # what a loaded trim of that kind has: a spatial dimension (rational shapes store it with the weight slot)
+                trim._a['_dimension'] = dim + (1 if key_ == ('NURBS', 'Curve') else 0)
+                surf = abstract_shape('Surface', 2, (2, 1), (4, 5), True, [])
+                try:
+                    sk.call(fi, [surf, trim], {})
+                    accepted = trim in surf._a['_trims']
+                    rejected = False
+                except Violation as v:
+                    if v.rule != 'RAISE':
+                        raise
+                    accepted, rejected = False, True
+                if dim == 2 and not accepted:
+                    why = 'a 2-dimensional %s is %s' % (key_[1], 'rejected' if rejected else 'not appended to the trims')
+                elif dim == 3 and not rejected:
+                    why = 'a 3-dimensional %s is accepted as a trim of the parametric (u, v) plane' % key_[1]
+            except Violation as v:
+                why = '%s %s - the guard reads something this kind of trim does not define: a file with such a trim can no longer be imported' % (v.msg, v.where())
+            except Unsupported as ex:
+                raise AnalysisError('%s: interpreter met an unsupported construct: %s' % (key, ex))
+            run.ob(rule, key, why is None, 'accepted' if dim == 2 and why is None else ('rejected' if why is None else why), 'geomdl/%s.py:%d in %s' % (fi.mod, fi.node.lineno, fi.key))
